@@ -162,3 +162,106 @@ func c13FreshColumnPositions(c *core.Check) {
 	}
 	r.OK("scan", "-", fmt.Sprintf("%d stores of slices into fields of boxes", n))
 }
+
+// c13GroupExtent (R17): no column group has a negative width.  tableLayout computes the extent of a group from its
+// first and last columns (last.x + last.width − first.x); in a right-to-left table column 0 is the rightmost, so the
+// two ends must be chosen under a test of the table's direction.  Structurally: the width stored into a column group
+// is computed from values that a comparison of the direction with "rtl" decides (a merge after that test), or the
+// store itself is on one side of such a test.
+func c13GroupExtent(c *core.Check) {
+	p := c.Prog
+	r := c.Rule("R17", "the extent of a column group depends on the direction: in tableLayout the width stored into a column group as (one column's right edge − another column's left edge) is computed from columns chosen by a test of the direction against \"rtl\"", 1)
+	fn := p.Fn("html/layout", "tableLayout")
+	if fn == nil {
+		r.Anchor("html/layout.tableLayout")
+		return
+	}
+	// direction tests
+	var dirBlocks []*ssa.BasicBlock
+	for _, b := range fn.Blocks {
+		if len(b.Instrs) == 0 {
+			continue
+		}
+		ifi, ok := b.Instrs[len(b.Instrs)-1].(*ssa.If)
+		if !ok {
+			continue
+		}
+		for _, a := range core.IfCondAtoms(ifi.Cond) {
+			if bo, ok := a.(*ssa.BinOp); ok && (bo.Op == token.EQL || bo.Op == token.NEQ) {
+				if k, ok := core.ConstStr(bo.Y); ok && (k == "rtl" || k == "ltr") {
+					dirBlocks = append(dirBlocks, b)
+				}
+			}
+		}
+	}
+	n := 0
+	core.Instrs(fn, func(in ssa.Instruction) {
+		st, ok := in.(*ssa.Store)
+		if !ok {
+			return
+		}
+		fa, ok := st.Addr.(*ssa.FieldAddr)
+		if !ok || core.FieldName(fa) != "Width" {
+			return
+		}
+		v := st.Val
+		if mi, ok := v.(*ssa.MakeInterface); ok {
+			v = mi.X
+		}
+		sub, ok := v.(*ssa.BinOp)
+		if !ok || sub.Op != token.SUB {
+			return
+		}
+		// (a.PositionX + a.Width) - b.PositionX
+		px := func(v ssa.Value) (ssa.Value, bool) {
+			ld, ok := v.(*ssa.UnOp)
+			if !ok {
+				return nil, false
+			}
+			f2, ok := ld.X.(*ssa.FieldAddr)
+			if !ok || core.FieldName(f2) != "PositionX" {
+				return nil, false
+			}
+			return f2.X, true
+		}
+		first, ok := px(sub.Y)
+		if !ok {
+			return
+		}
+		add, ok := sub.X.(*ssa.BinOp)
+		if !ok || add.Op != token.ADD {
+			return
+		}
+		last, ok := px(add.X)
+		if !ok {
+			return
+		}
+		n++
+		key := fmt.Sprintf("html/layout.tableLayout | extent from two columns #%d", n)
+		decided := false
+		for _, v := range []ssa.Value{first, last} {
+			if phi, ok := v.(*ssa.Phi); ok {
+				for _, db := range dirBlocks {
+					if db.Dominates(phi.Block()) {
+						for _, pr := range phi.Block().Preds {
+							if pr == db || db.Dominates(pr) {
+								decided = true
+							}
+						}
+					}
+				}
+			}
+		}
+		for _, db := range dirBlocks {
+			for _, s := range db.Succs {
+				if len(s.Preds) == 1 && (s == st.Block() || s.Dominates(st.Block())) {
+					decided = true
+				}
+			}
+		}
+		r.Cond(decided, key, p.Pos(st.Pos()), "the two columns are chosen by a test of the direction", "the two columns are the first and the last of the group whatever the direction: in a right-to-left table the first column is the rightmost and the width is negative")
+	})
+	if n == 0 {
+		r.Unknown("html/layout.tableLayout | extent from two columns", p.Pos(fn.Pos()), "no width computed from the edges of two boxes")
+	}
+}
